@@ -2,7 +2,8 @@
    Only statements and `exact`; the proofs are in Proofs/C22.v.  The model (Model/CmdDispatch.v)
    transcribes handleLegacyCommand / handleKeyedCommand / handleSessionCommand / executeCommand
    and brigodier's parseNodes/Execute for literal trees; [impl_decide] is today's code,
-   [spec_decide] the code with recorded finding C22-1 repaired.  An [input] is: protocol family,
+   which since commit 0268c73 (repair of finding C22-1) is the specification model [spec_decide];
+   [prefix_decide] is the code before that repair.  An [input] is: protocol family,
    ForceKeyAuthentication, key revision, signedness, the client's command line, the
    CommandExecuteEvent outcome (denied / forward / command line) and the registered tree with
    the per-node requirement results for this player. *)
@@ -18,7 +19,7 @@ Open Scope N_scope.
 Theorem C22_iff : forall i id,
   r_ran (impl_decide i) = Some id <->
   i_denied i = false /\ i_forward i = false /\ snd (dispatch (i_roots i) (i_cmd i)) = Some id.
-Proof. exact (C22_iff_lemma false). Qed.
+Proof. exact (C22_iff_lemma true). Qed.
 Print Assumptions C22_iff.
 
 (* ... and what the dispatcher runs is an executor on a path of nodes that all pass the player's
@@ -46,21 +47,13 @@ Print Assumptions C22_unusable_is_unknown.
    the dispatcher answered unknown / ErrForward), player not disconnected => exactly one command
    packet; it carries the event's command line, except that the legacy handler sends the client's
    original message when the dispatcher does not know the (possibly rewritten) command.
-   For today's code off the trigger of finding C22-1, for the repaired code everywhere. *)
+   Today's code, every input. *)
 Theorem C22_exactly_once : forall i,
-  trigger1 i = false ->
   i_denied i = false -> kept_by_proxy i = false -> r_disc (impl_decide i) = false ->
   exists c, cmd_packets (r_backend (impl_decide i)) = [c] /\
     (c = i_cmd i \/ (c = i_line i /\ i_fam i = Legacy /\ i_forward i = false)).
-Proof. intros i Ht. exact (exactly_once_gen false i (or_intror Ht)). Qed.
-Print Assumptions C22_exactly_once.
-
-Theorem C22_exactly_once_spec : forall i,
-  i_denied i = false -> kept_by_proxy i = false -> r_disc (spec_decide i) = false ->
-  exists c, cmd_packets (r_backend (spec_decide i)) = [c] /\
-    (c = i_cmd i \/ (c = i_line i /\ i_fam i = Legacy /\ i_forward i = false)).
 Proof. intros i. exact (exactly_once_gen true i (or_introl eq_refl)). Qed.
-Print Assumptions C22_exactly_once_spec.
+Print Assumptions C22_exactly_once.
 
 (* the only way out of "exactly once": the player is disconnected, which happens only for a signed
    command under ForceKeyAuthentication, and then nothing is forwarded *)
@@ -68,38 +61,44 @@ Theorem C22_disconnect_only_signed_forced : forall i,
   r_disc (impl_decide i) = true ->
   i_signed i = true /\ i_fka i = true /\ cmd_packets (r_backend (impl_decide i)) = [].
 Proof.
-  intros i H. destruct (disc_only_signed_fka false i H) as [H1 H2].
-  split; [exact H1|split; [exact H2|exact (disc_nothing false i H)]].
+  intros i H. destruct (disc_only_signed_fka true i H) as [H1 H2].
+  split; [exact H1|split; [exact H2|exact (disc_nothing true i H)]].
 Qed.
 Print Assumptions C22_disconnect_only_signed_forced.
 
 (* "A denied command never reaches the backend." *)
 Theorem C22_denied_never_forwarded : forall i,
   i_denied i = true -> cmd_packets (r_backend (impl_decide i)) = [].
-Proof. exact (denied_never_forwarded false). Qed.
+Proof. exact (denied_never_forwarded true). Qed.
 Print Assumptions C22_denied_never_forwarded.
 
 (* a command the proxy kept (ran it, or answered a syntax / execution error) is not forwarded too *)
 Theorem C22_kept_never_forwarded : forall i,
   kept_by_proxy i = true -> cmd_packets (r_backend (impl_decide i)) = [].
-Proof. exact (kept_not_forwarded false). Qed.
+Proof. exact (kept_not_forwarded true). Qed.
 Print Assumptions C22_kept_never_forwarded.
 
 (* the decidable predicate the judge evaluates on observed behaviour (holds_C22) is satisfied by
-   the repaired model on every input, and today's code equals the repaired code off the trigger *)
-Theorem C22_spec_holds : forall i, holds_C22 i (spec_decide i) = true.
+   today's model on every input *)
+Theorem C22_impl_holds : forall i, holds_C22 i (impl_decide i) = true.
 Proof. exact spec_holds_lemma. Qed.
-Print Assumptions C22_spec_holds.
+Print Assumptions C22_impl_holds.
 
-Theorem C22_impl_eq_spec_off_trigger : forall i, trigger1 i = false -> impl_decide i = spec_decide i.
-Proof. exact impl_eq_spec_off_trigger_lemma. Qed.
-Print Assumptions C22_impl_eq_spec_off_trigger.
+(* finding C22-1, fixed by commit 0268c73 - facts about the model of the code BEFORE the repair:
+   it equals today's model off the trigger, and on the trigger it dropped a forwarded, rewritten,
+   signed 1.19.1 command when ForceKeyAuthentication is off (not denied, not kept, not
+   disconnected, yet zero packets); today's model forwards that command once *)
+Theorem C22_prefix_eq_spec_off_trigger : forall i, trigger1 i = false -> prefix_decide i = spec_decide i.
+Proof. exact prefix_eq_spec_off_trigger_lemma. Qed.
+Print Assumptions C22_prefix_eq_spec_off_trigger.
 
-(* finding C22-1: today's code drops a forwarded, rewritten, signed 1.19.1 command when
-   ForceKeyAuthentication is off - not denied, not kept, not disconnected, yet zero packets *)
-Theorem C22_exactly_once_refuted : exists i,
+Theorem C22_exactly_once_refuted_before_fix : exists i,
   trigger1 i = true /\ i_denied i = false /\ kept_by_proxy i = false /\
-  r_disc (impl_decide i) = false /\ cmd_packets (r_backend (impl_decide i)) = [] /\
-  holds_C22 i (impl_decide i) = false.
-Proof. exists c22_witness. exact C22_refuted_lemma. Qed.
-Print Assumptions C22_exactly_once_refuted.
+  r_disc (prefix_decide i) = false /\ cmd_packets (r_backend (prefix_decide i)) = [] /\
+  holds_C22 i (prefix_decide i) = false /\
+  cmd_packets (r_backend (impl_decide i)) = [i_cmd i].
+Proof.
+  exists c22_witness. destruct C22_refuted_lemma as (H1 & H2 & H3 & H4 & H5 & H6).
+  repeat split; try assumption; vm_compute; reflexivity.
+Qed.
+Print Assumptions C22_exactly_once_refuted_before_fix.
